@@ -32,7 +32,7 @@ COVER = {
   "order": ["Subscribe", "RaiseBegin", "Return", "RaiseSimple"],
   "remove": ["Subscribe", "Unsubscribe", "RaiseBegin", "Return", "RaiseSimple"],
   "weak": ["Subscribe", "AutoBind", "Unsubscribe", "DropOwner", "RaiseBegin", "Return", "RaiseSimple"],
-  "err": ["Subscribe", "RaiseBegin", "Return", "RaiseSimple"],
+  "err": ["Subscribe", "Unsubscribe", "RaiseBegin", "Return", "RaiseSimple"],
   # thorough: the quick-size weak configuration with autoBindEvents(prefix=...)
   "weakP": ["Subscribe", "AutoBind", "Unsubscribe", "DropOwner", "RaiseBegin", "Return", "RaiseSimple"],
   # removeListeners(list) / clearHandlers(); UnsubscribeManyAny is the named
